@@ -57,8 +57,11 @@ def build_network(edges, res, margin, scale=1, past=None):
     from tracklib.algo.cinematics import computeAbsCurv
     net = Network()
     nid = {}
+    # a third of the networks lie at a constant elevation of 120 (a town on a plateau; the tracks are recorded at z = 0): the
+    # matching is planimetric, and 2D and 3D edge lengths are the same
+    elev = 120.0 if (len(edges) + sum(len(g) for g in edges)) % 3 == 0 else 0.0
     for j, g in enumerate(edges):
-        tr = Track([Obs(ENUCoords(float(p[0]) * scale, float(p[1]) * scale, 0.0), ObsTime()) for p in g], j + 1)
+        tr = Track([Obs(ENUCoords(float(p[0]) * scale, float(p[1]) * scale, elev), ObsTime()) for p in g], j + 1)
         computeAbsCurv(tr)
         e = Edge(j + 1, tr)
         e.orientation = Edge.DOUBLE_SENS
